@@ -1,22 +1,25 @@
 """C05 Every instruction word executes with the specified semantics."""
 import astq
-from rules import a64hsem, a64sem, decode, jit, jitcross, rv64, rvhsem, sshash, x86hsem
+from rules import a64hsem, a64sem, decode, interpsem, jit, jitcross, rv64, rvhsem, sshash, x86hsem
 
 LEVEL = 'other'
 TECHNIQUE = ('exhaustive path enumeration of the decoder against the specification tables + known-bits abstract interpretation of FP bit-pattern constructors; known-bits abstract execution of the A64 immediate helpers with the architectural meaning of the emitted instructions'
-         '; symbolic translation validation of the integer register-form handlers: known-bits execution of the emitter for constant instruction fields, decoding of the emitted code, application to a register file of terms over r0..r7, comparison of normal forms with the terms of specification 5.2')
+         '; symbolic translation validation of the integer register-form handlers: known-bits execution of the emitter for constant instruction fields, decoding of the emitted code, application to a register file of terms over r0..r7, comparison of normal forms with the terms of specification 5.2'
+         '; symbolic evaluation of the interpreter executors on terms')
 CLAIM = ('Decides statically that the interpreter decoder conforms to the specification tables for all 256 opcodes and every decoder path: opcode -> instruction by '
          'frequency, operand groups and index moduli, src == dst rules, immediate extension, scratchpad level per Table 5.1.4, branch constant/mask/target construction for '
          'all 16 shifts, last-writer marks exactly as spec 5.4.2, the CFROUND v1/v2 rule, and (known-bits, for every entropy word) the group A / group E bit-level '
          'invariants at load time. The arithmetic performed by each executor and closure of the FP invariants under arithmetic are numeric and not claimed.'
          ' Also decided, as agreement with the decoder: opcode tables and scratchpad mask selection of the x86 / A64 / RV64 emitters, the immediate encodings of the x86 emitter (IMM-ENC), that the A64 immediate helpers leave src + sext(imm32) / sext(imm32) in the destination for every imm32 (A64-IMMHELP, known-bits abstract execution over 529 immediate classes), and that A64 / RV64 ISUB_R do not negate before sign extension.'
-         ' The integer register-form instructions are also validated in each JIT back-end against the terms of specification 5.2 (X86-HSEM, A64-HSEM, RV-HSEM), and the RV64 branch forms reach exactly the distances they are selected for (RV-BRANCH-RANGE / -ENC).')
+         ' The integer register-form instructions are also validated in each JIT back-end against the terms of specification 5.2 (X86-HSEM, A64-HSEM, RV-HSEM), and the RV64 branch forms reach exactly the distances they are selected for (RV-BRANCH-RANGE / -ENC).'
+         ' Interpreter executors: the body of every integer executor is evaluated symbolically on terms and must equal the term of specification 5.2 (INT-EXEC: 17 executors, every shift, all three masks), and every floating-point executor applies the operation of 5.3 to the right operands, with the converted scratchpad operand and, for FDIV_M, the mantissa / exponent masks (FP-EXEC, uninterpreted vector operations; the rx_* wrappers of the host configuration are the packed-double intrinsics of the same name). x86 JIT: the memory-form and floating-point handlers are validated on the decoded bytes as well (X86-MEM-HSEM, X86-FP-HSEM).')
 LEVEL_NOTE = ('Trusted: clang 14 AST with the build flags; doc/specs.md tables as the oracle; IEEE-754 reasoning that positive normal E operands and A in [1,2^32) '
               'cannot produce NaN/subnormals is the design document argument, not re-derived.')
 EXPLANATION = ('Decoder blocks of BytecodeMachine::compileInstruction enumerated path by path (46 paths), each compared with the row of spec Tables 5.2.1/5.3.1/5.4.1/5.5.1; '
                'executors read for field use and write sets; known-bits evaluation of CBRANCH constants for 16 shifts and of getSmallPositiveFloatBits/getFloatMask.'
                ' TAB-OPC x3, MEM-JITMASK x3, IMM-ENC, IMM-NEG, A64-IMMHELP.'
-         ' X86-HSEM, A64-HSEM, RV-HSEM, RV-BRANCH-RANGE/ENC.')
+         ' X86-HSEM, A64-HSEM, RV-HSEM, RV-BRANCH-RANGE/ENC.'
+         ' INT-EXEC, FP-EXEC, X86-MEM-HSEM, X86-FP-HSEM.')
 
 
 def run(ctx, R):
@@ -45,3 +48,7 @@ def run(ctx, R):
     x86hsem.rule_hsem(ctx, R)
     a64hsem.rule_hsem(ctx, R)
     rvhsem.rule_hsem(ctx, R)
+    interpsem.rule_int_exec(ctx, R, F)
+    interpsem.rule_fp_exec(ctx, R, astq.Facts(ctx, 'K1'), F)
+    x86hsem.rule_mem_hsem(ctx, R)
+    x86hsem.rule_fp_hsem(ctx, R)
